@@ -129,6 +129,12 @@ CLAIMED = {
         "Critical path by own brute-force enumeration; graphs whose critical path is ambiguous (zero weights with SLOs) are skipped and counted.",
         "DESIGN.md 3 C19",
     ),
+    "C20": (
+        "Hypothesis grammar of STRL trees lowered by the repository's C++ code (driver built from /repo sources with a sequential TBB shim); differential against an independent Python semantics of STRL with exhaustive leaf-decision enumeration; solution-pool enumeration of the rebuilt MILP fed back through populateResults(); metamorphic relations over pruning passes and discretisation",
+        "Translation validation by generated search: for each generated tree the optimum and up to 30 feasible points of the emitted model are decoded and judged by a reference semantics (capacity at every instant, exact Choose amounts/windows, Min/Max/LessThan structure, utility == objective, read-back placements); optimum == brute-force optimum; optimum invariant under the pruning passes; coarser grids only lose utility. Exploration over trees, exhaustive over leaf decisions per tree.",
+        "Model solved with gurobipy after a translation mirroring GurobiSolver.cpp; WindowedChoose/MalleableChoose not compared with a reference optimum; trees with > 40 000 decision vectors are discarded.",
+        "DESIGN.md 3 C20",
+    ),
 }
 
 NOT_YET = "check not built yet in this snapshot of /verif (construction in progress; see DESIGN.md section 3)"
